@@ -80,7 +80,7 @@ func (s *spyStore) do(op, sid string, arg map[string]any, run func() (map[string
 	}
 	ev["res"] = res
 	ev["err"] = err != nil
-	ev["probe"] = d.probe(s, sid)
+	ev["probe"] = d.probe(s, sid, g.check.f)
 	d.rec.emit(ev)
 	return err
 }
